@@ -21,7 +21,9 @@ ROOT = os.path.dirname(os.path.dirname(os.path.abspath(__file__)))
 NEEDED = ["python/gtirb", "python/tests", "python/version.py.in", "proto", "version.txt", "java/com/grammatech/gtirb"]
 
 
-def make_copy(repo="/repo"):
+def make_copy(repo=None):
+    # the tree the mutants are applied to: /repo, or a snapshot of it (SENS_REPO)
+    repo = repo or os.environ.get("SENS_REPO", "/repo")
     d = tempfile.mkdtemp(prefix="gtirb-mut-")
     for rel in NEEDED:
         src = os.path.join(repo, rel)
